@@ -60,6 +60,11 @@ def build(job):
             fset[lab(s)].suppset(z == cen[s])
         elif k == 2 or k == 6:
             fset[lab(s)].suppset(z >= cen[s] - 1, z <= cen[s] + 1)
+        elif k == 7:
+            cons = [z >= cen[s] - 1, z <= cen[s] + 1]
+            if s % 2 == 0:
+                cons.append(rso.exp(z[1]) <= math.exp(cen[s][1] + 1) * (1 + 1e-9))
+            fset[lab(s)].suppset(cons)
         elif k == 4:
             fset[lab(s)].suppset(rso.norm(z - cen[s], 1) <= 1)
     if k == 3:
